@@ -1,3 +1,4 @@
+pub mod bind;
 pub mod c01;
 pub mod c05;
 pub mod c06;
@@ -22,12 +23,14 @@ pub fn run(id: &str, tier: Tier) -> Option<Report> {
         "C06" => {
             let mut rep = Report::new("C06", "model_checking", tier);
             c06::run(tier, &mut rep);
+            bind::c06_binding(tier, &mut rep);
             finalize_counts(&mut rep);
             rep
         }
         "C07" => {
             let mut rep = Report::new("C07", "model_checking", tier);
             c07::run(tier, &mut rep);
+            bind::c07_binding(tier, &mut rep);
             finalize_counts(&mut rep);
             rep
         }
@@ -74,6 +77,8 @@ pub fn replay(id: &str, v: &serde_json::Value) -> i32 {
     match id {
         "C01" => c01::replay(v),
         "C05" => c05::replay(v),
+        "C06" if v["part"] == "binding" => bind::replay(v),
+        "C07" if v["part"] == "binding" => bind::replay(v),
         "C06" => c06::replay(v),
         "C07" => c07::replay(v),
         "C08" => {
